@@ -620,7 +620,8 @@ func (h *HWorld) checkObs(prop string, o *HObs, clauses map[string]bool) []Viola
 		if got != want {
 			kind := "routing"
 			switch {
-			case strings.HasPrefix(want, "301") || want == "503-tls" || strings.HasPrefix(got, "301") || (got == "503-tls" && want != "503-stopped"):
+			case strings.HasPrefix(want, "301") || want == "503-tls" || strings.HasPrefix(got, "301") || (got == "503-tls" && want != "503-stopped"),
+				got == "503" && co.Cell.TLS && strings.HasPrefix(want, "fwd") && svc != nil && len(svc.Hosts) > 1:
 				kind = "tls-policy"
 			case want == "held" || want == "503-stopped" || want == "proxy-200" || got == "held":
 				kind = "gate"
